@@ -210,10 +210,14 @@ pub fn run_ladder_case(kvs: &[Kv]) -> Result<u64, String> {
     let bytes = front::build(Front::RawInsert, (2, 2), kvs)?;
     guard(|| {
         let f = Fst::new(&bytes[..]).map_err(|e| format!("{:?}", e))?;
+        let long = kvs.iter().any(|x| x.0.len() > 3000);
         let mut los: Vec<Key> = vec![vec![]];
         for (k, _) in kvs {
             los.push(k.clone());
             los.push(k[..k.len() - 1].to_vec());
+            if long {
+                continue; // very long keys: fewer bounds (each range copies every key)
+            }
             let mut m = k.clone();
             m.push(0);
             los.push(m);
@@ -226,7 +230,10 @@ pub fn run_ladder_case(kvs: &[Kv]) -> Result<u64, String> {
         for lo in [Lo::Ge, Lo::Gt] {
             for lok in &los {
                 let mut his: Vec<(Hi, &[u8])> = vec![(Hi::None, b"")];
-                for (k, _) in kvs {
+                for (i, (k, _)) in kvs.iter().enumerate() {
+                    if long && i % 3 != 1 {
+                        continue;
+                    }
                     his.push((Hi::Le, k));
                     his.push((Hi::Lt, k));
                 }
@@ -483,6 +490,11 @@ pub fn plan(tier: Tier) -> Plan {
             for (name, kvs) in key_length_ladder(part, 16) {
                 if name.ends_with("set") {
                     continue;
+                }
+                let l = kvs.iter().map(|x| x.0.len()).max().unwrap() - 1;
+                let near_pow2 = (3..=17u32).any(|k| (l as i64 - (1i64 << k)).abs() <= 3);
+                if !thorough && l % 4 != 0 && !near_pow2 {
+                    continue; // quick tier: every fourth length and the neighbourhoods of powers of two
                 }
                 st.nontrivial += 1;
                 st.states += 1;
